@@ -169,6 +169,20 @@ func (s *ScanSchema) bx(id string) bool {
 	return len(id) > 0 && id[len(id)-1]%2 == 0
 }
 
+// scanEnt / scanStrategy: the scan stores are written with TypedBucket setters; the strategy only exists so that the
+// store's delete operations, which load the entity first, can be used on them
+type scanEnt struct{ Id string }
+
+func (e *scanEnt) GetId() string         { return e.Id }
+func (e *scanEnt) SetId(id string)       { e.Id = id }
+func (e *scanEnt) GetEntityType() string { return "people" }
+
+type scanStrategy struct{}
+
+func (scanStrategy) NewEntity() boltz.Entity                           { return &scanEnt{} }
+func (scanStrategy) FillEntity(boltz.Entity, *boltz.TypedBucket)       {}
+func (scanStrategy) PersistEntity(boltz.Entity, *boltz.PersistContext) {}
+
 // symbol layout helpers (variant bit 0: symbol name != bucket key; bit 1: some symbols under a prefix path)
 func (s *ScanSchema) keyOf(field string) string {
 	if s.Variant&1 != 0 && (field == "sa" || field == "ia") {
@@ -192,7 +206,8 @@ var PeopleScalarTypes = map[string]ast.NodeType{
 
 func NewScanSchema(variant int) *ScanSchema {
 	s := &ScanSchema{Variant: variant}
-	s.People = boltz.NewBaseStore(boltz.StoreDefinition[boltz.Entity]{EntityType: "people", BasePath: []string{"application"}})
+	s.People = boltz.NewBaseStore(boltz.StoreDefinition[boltz.Entity]{EntityType: "people", BasePath: []string{"application"}, EntityStrategy: scanStrategy{}})
+	s.People.InitImpl(s.People)
 	s.Places = boltz.NewBaseStore(boltz.StoreDefinition[boltz.Entity]{EntityType: "places", BasePath: []string{"application"}})
 
 	p := s.People
